@@ -1,6 +1,6 @@
 (* C01 Natively evaluated queries return what the reference Prometheus engine returns.
    Property theorems only; they assemble the per-construct results. Partial: see the note. *)
-From Coq Require Import List String ZArith NArith Bool.
+From Coq Require Import List String ZArith NArith Bool Lia.
 From Verif Require Import Base Grid Select SelectProofs Shard Exec Compose StreamWF Agg AggProofs.
 From Verif Require Bin BinProofs EndToEnd.
 Import ListNotations.
@@ -77,12 +77,56 @@ Example C01_binary_example :
   Some [([(1, 20); (2, 31); (3, 40)]%N, 20); ([(1, 20); (2, 32); (3, 40)]%N, 50)].
 Proof. cbv zeta. split; vm_compute; reflexivity. Qed.
 
+(* ... and for arbitrary trees of vector/vector binary operators over selectors,
+   e.g. (a + on (x) b) * ignoring (y) group_left c: every node's stream is a
+   function of the grid timestamp; its sample IDs are distinct and name series
+   of the node; at every timestamp at which the reference evaluation of the
+   node succeeds, the node's labelled samples are a permutation of the
+   reference's. Hypothesis at every join: distinct signatures among the series
+   of its "one" side (as the node below enumerates them). *)
+Theorem C01_join_trees :
+  forall (cf : cfg) (w : window),
+  (0 < c_shards cf)%nat -> (0 < c_batch cf)%nat -> 0 <= c_lookback cf -> wf_window w -> Bin.noT < w_start w ->
+  forall t, EndToEnd.jok t ->
+  exists f,
+    EndToEnd.jrun cf w t = inl (map (fun ts => (ts, f ts)) (grid w)) /\
+    forall ts, EndToEnd.good_vec (List.length (EndToEnd.jseries t)) (f ts) /\
+               forall R, EndToEnd.jref (c_lookback cf) t ts = Some R ->
+                         Permutation.Permutation (Bin.labelled Z (EndToEnd.jseries t) (f ts)) R.
+Proof. exact EndToEnd.jtree_matches_reference. Qed.
+Print Assumptions C01_join_trees.
+
+(* non-vacuity: (foo * on (a) group_left (c) bar) > bool on (a, b) baz *)
+Example C01_join_tree_example :
+  let mul (x y : Z) := ((x * y)%Z, true) in
+  let gt (x y : Z) := (x, (x >? y)%Z) in
+  let b2z (b : bool) := if b then 1 else 0 in
+  let foo := EndToEnd.JLeaf [[(0, 10); (1, 20); (2, 31)]; [(0, 10); (1, 20); (2, 32)]]%N
+                            [[mkS 950 (Some 2); mkS 1040 (Some 3)]; [mkS 990 (Some 5)]] 0 in
+  let bar := EndToEnd.JLeaf [[(0, 11); (1, 20); (3, 40)]]%N [[mkS 980 (Some 10)]] 0 in
+  let baz := EndToEnd.JLeaf [[(0, 12); (1, 20); (2, 31)]; [(0, 12); (1, 20); (2, 32)]]%N
+                            [[mkS 1000 (Some 25)]; [mkS 1000 (Some 25)]] 0 in
+  let inner := EndToEnd.JJoin (EndToEnd.mkJP mul b2z true [1%N] [3%N] Bin.ManyToOne false true) foo bar in
+  let t := EndToEnd.JJoin (EndToEnd.mkJP gt b2z true [1%N; 2%N] [] Bin.OneToOne true false) inner baz in
+  EndToEnd.jok t /\
+  EndToEnd.jrun (mkCfg 2 2 100) (mkW 1000 1030 30) t =
+    inl [(1000, [(0%nat, 0); (1%nat, 1)]); (1030, [(0%nat, 0); (1%nat, 1)])] /\
+  EndToEnd.jref 100 t 1000 = Some [([(1, 20); (2, 31)]%N, 0); ([(1, 20); (2, 32)]%N, 1)].
+Proof.
+  cbv zeta. split; [|split; vm_compute; reflexivity].
+  simpl. repeat split; try reflexivity; try (repeat constructor; simpl; lia);
+    try (intros i j Hi Hj _; simpl in Hi, Hj; lia); try discriminate.
+  intros i j Hi Hj H. vm_compute in Hi, Hj.
+  destruct i as [|[|i]]; destruct j as [|[|j]]; try lia; try reflexivity; vm_compute in H; discriminate.
+Qed.
+
 (* PARTIAL. The full statement (value equality with the reference for every
    native construct) is false of the pinned engine (known findings F02, F20,
    F22a-c, F30) and its floating-point kernels are not modelled. Proved: the
    evaluation skeleton (step locality, grid coverage, sharding/batching
    independence), the selection semantics of the leaves, the grouping and reset
    logic of aggregations (C04), hints (C16), optimizer soundness (C09), and, end to
-   end, the query shape L op R over selectors (C01_binary_over_selectors). The
+   end, the query shape L op R over selectors (C01_binary_over_selectors) and
+   arbitrary trees of such operators (C01_join_trees). The
    remaining obligation - per-construct value equality - is decided by the
    reference oracle on the full native vocabulary. *)
